@@ -1100,7 +1100,7 @@ package psatoken
 
 //@ bounded[C09,C07] cbor-round-trip : 32 valid claims-sets (both profiles x 16 optional-claim / hash-size / 1..4-component / text / client-id combinations) and 32 sets damaged in one claim, plus 32 valid sets of two registered extension profiles (one derived from each base profile, two extra optional claims); thorough tier: 192 valid claims-sets :: boundedCBORRoundTrip()
 //@ bounded[C10] wire-format : the same 32 valid claims-sets, output parsed by an independent definite-length CBOR reader; thorough tier: 192 valid claims-sets :: boundedWireFormat()
-//@ bounded[C04] acceptance : tokens assembled by an independent CBOR writer, one claim at a time through every value class (absent, null, undefined, boolean, 12 byte-string lengths, wrong major types incl. a byte string where text is expected, out-of-width integers, float), both profiles, unknown extra key, rotated key order, indefinite / trailing / unknown-profile tokens; verdict compared with an independent oracle; thorough tier: every byte-string length 0..70 :: boundedAcceptance()
+//@ bounded[C04] acceptance : tokens assembled by an independent CBOR writer, one claim at a time through every value class (absent, null, undefined, boolean, 12 byte-string lengths, wrong major types incl. a byte string where text is expected, out-of-width integers, float), both profiles, unknown extra key, rotated key order, indefinite / trailing / unknown-profile tokens; verdict compared with an independent oracle; getters of two accepted three-component tokens compared with the values the independent writer put on the wire (order, optional fields, extreme integers); thorough tier: every byte-string length 0..70 :: boundedAcceptance()
 //@ bounded[C12] json-round-trip : the same 32 valid claims-sets and 32 extension-profile sets through JSON and through CBOR->JSON->CBOR; member names, base64, no null members; thorough tier: 192 valid claims-sets :: boundedJSONRoundTrip()
 
 // ---------------------------------------------------------------- bounded audits of the assumed go-cose / crypto contracts and of library thread-safety
